@@ -404,3 +404,247 @@ def _register_pipeline():
 
 
 _register_pipeline()
+
+
+# --------------------------------------------------------------------------------------------------
+# call sites: to_line_mapping / from_line_mapping compose the stages in order, on the right table, with the right format flag
+
+@harness("lm.to_from_line_mapping.call_sites", props=["C10", "C01", "C02", "C03"], functions=["code_data._line_mapping.to_line_mapping", "code_data._line_mapping.from_line_mapping"], configs="all",
+         assumes=["callee contracts: the six stage functions (each discharged by its own harness)"],
+         notes="modular: the stage functions are stubs; to_line_mapping reads co_linetable from 3.10 and co_lnotab before, passes the format flag to both later stages and len(co_code) as the "
+               "extent; from_line_mapping applies mapping_to_items, expand_items, items_to_bytes in that order with the same flag")
+def h_lm_glue(ctx, cfg):
+    import types
+    ns = rewrite.load(L, ["to_line_mapping", "from_line_mapping"], tag="line_mapping:glue")
+    ns["USE_LINETABLE"] = cfg.linetable
+    log = []
+    ns["bytes_to_items"] = lambda b: (log.append(("bytes_to_items", b)), "ITEMS")[1]
+    ns["collapse_items"] = lambda items, lt: (log.append(("collapse_items", items, lt)), "COLLAPSED")[1]
+    ns["items_to_mapping"] = lambda items, mx, lt: (log.append(("items_to_mapping", items, mx, lt)), "MAPPING")[1]
+    ns["mapping_to_items"] = lambda m, lt: (log.append(("mapping_to_items", m, lt)), "COLLAPSED2")[1]
+    ns["expand_items"] = lambda items, lt: (log.append(("expand_items", items, lt)), "EXPANDED")[1]
+    ns["items_to_bytes"] = lambda items: (log.append(("items_to_bytes", items)), "BYTES")[1]
+    code = types.SimpleNamespace(co_linetable="LINETABLE", co_lnotab="LNOTAB", co_code=b"\x00" * 14)
+    r = ns["to_line_mapping"](code)
+    lt = cfg.linetable
+    ctx.prove("decode.stages_in_order_on_the_interpreter's_table", z3.BoolVal(log == [("bytes_to_items", "LINETABLE" if lt else "LNOTAB"), ("collapse_items", "ITEMS", lt), ("items_to_mapping", "COLLAPSED", 14, lt)] and r == "MAPPING"),
+              detail=repr(log))
+    del log[:]
+    r = ns["from_line_mapping"]("M")
+    ctx.prove("encode.stages_in_order_with_the_same_format_flag", z3.BoolVal(log == [("mapping_to_items", "M", lt), ("expand_items", "COLLAPSED2", lt), ("items_to_bytes", "EXPANDED")] and r == "BYTES"), detail=repr(log))
+
+
+# --------------------------------------------------------------------------------------------------
+# LineMapping methods
+
+class _LineDict:
+    """dict[int, Optional[int]] with one generic entry (rule 6): what modify_line_offsets iterates and writes"""
+
+    def __init__(self, key, value):
+        self.key, self.value, self.writes = key, value, []
+
+    def items(self):
+        return [(self.key, self.value)]
+
+    def __getitem__(self, k):
+        return self.value
+
+    def __setitem__(self, k, v):
+        self.writes.append((k, v))
+        self.value = v
+
+
+@harness("lm.LineMapping.modify_line_offsets", props=["C01", "C02", "C03", "C10"], functions=["code_data._line_mapping.LineMapping.modify_line_offsets"], configs="any",
+         assumes=["rule 6: the loop only rewrites the entry it visits"],
+         notes="generic entry: a lined entry is shifted by exactly the given amount, an entry without a line is left alone; nothing else is written")
+def h_modify(ctx, cfg):
+    f = L.LineMapping.modify_line_offsets
+    rewrite.Source.of(L).get_def("LineMapping.modify_line_offsets")
+    shift = ctx.input("shift", SymInt.fresh("shift"))
+    key = ctx.input("offset", SymInt.fresh("offset"))
+    for lined in (True, False):
+        line = ctx.input("line", SymInt.fresh("line")) if lined else None
+        d = _LineDict(key, line)
+        m = L.LineMapping.__new__(L.LineMapping)
+        m.offset_to_line, m.offset_to_additional_line_offsets = d, {}
+        f(m, shift)
+        if lined:
+            ctx.prove("lined_entry_shifted_by_the_amount", z3.And(z3.BoolVal(len(d.writes) == 1), Z(d.value) == line.z + shift.z))
+            ctx.prove("written_at_its_own_offset", z3.BoolVal(d.writes[0][0] is key))
+        else:
+            ctx.prove("no_line_entry_untouched", z3.BoolVal(d.writes == [] and d.value is None))
+
+
+@harness("lm.LineMapping.additional_line", props=["C01", "C10"], functions=["code_data._line_mapping.LineMapping.pop_additional_line", "code_data._line_mapping.LineMapping.add_additional_line"],
+         configs="any", engine="E2",
+         notes="bounded case analysis on the leftovers after decoding: nothing left -> None; exactly the entry at len(code) -> AdditionalLine(line, extra offsets) and add_additional_line puts "
+               "it back unchanged; anything else -> NotImplementedError (raise rather than drop)")
+def h_additional_line(ctx, cfg):
+    from code_data import AdditionalLine
+    LM = L.LineMapping
+    src = rewrite.Source.of(L)
+    src.get_def("LineMapping.pop_additional_line")
+    src.get_def("LineMapping.add_additional_line")
+    n = 10
+    ctx.prove("nothing_left", z3.BoolVal(LM({}, {}).pop_additional_line(n) is None))
+    m = LM({n: 7}, {n: [1, -2]})
+    al = m.pop_additional_line(n)
+    ctx.prove("trailing_entry_becomes_the_additional_line", z3.BoolVal(al == AdditionalLine(7, (1, -2))))
+    ctx.prove("trailing_entry_without_extras", z3.BoolVal(LM({n: 7}, {}).pop_additional_line(n) == AdditionalLine(7, ())))
+    back = LM({}, {})
+    back.add_additional_line(al, n)
+    ctx.prove("add_additional_line_is_the_inverse", z3.BoolVal(back.offset_to_line == {n: 7} and back.offset_to_additional_line_offsets == {n: [1, -2]}))
+    for leftovers in [({4: 1}, {}), ({n: 1, 4: 1}, {}), ({}, {4: [1]}), ({n: 1}, {4: [1]})]:
+        try:
+            LM(*[dict(x) for x in leftovers]).pop_additional_line(n)
+            ok = False
+        except NotImplementedError:
+            ok = True
+        ctx.prove("other_leftovers_raise_instead_of_being_dropped", z3.BoolVal(ok), detail=repr(leftovers))
+
+
+# --------------------------------------------------------------------------------------------------
+# stage 3 for the 3.10 format, one step on a generic item / generic mapping entry (unbounded)
+
+class _GenericRange:
+    """`range(a, b, 2)` with symbolic bounds under rule 6: one generic element i with a <= i < b, i = a (mod 2)"""
+
+    def __init__(self, ctx, a, b, step):
+        self.ctx, self.a, self.b, self.step = ctx, a, b, step
+
+    def __iter__(self):
+        i = SymInt.fresh(self.ctx.fresh("generic_offset"))
+        feasible = z3.And(i.z >= Z(self.a), i.z < Z(self.b), (i.z - Z(self.a)) % self.step == 0)
+        if self.ctx.decide(feasible):
+            yield i
+
+
+def i2m_ns():
+    def build():
+        src = rewrite.Source.of(L)
+        node = copy.deepcopy(src.get_def("items_to_mapping"))
+        node = rewrite.BuiltinRouter({"range"}, L.__name__, "items_to_mapping").visit(node)
+        done = False
+        for k, st in enumerate(node.body):      # rule 4: the write-only result dict is bound to a ghost that records the writes
+            if isinstance(st, ast.AnnAssign) and getattr(st.target, "id", "") == "offset_to_line":
+                node.body[k] = ast.copy_location(ast.parse("offset_to_line = G").body[0], st)
+                rewrite.REWRITE_LOG.append(("ghost-accumulator", L.__name__, "items_to_mapping", st.lineno, "offset_to_line"))
+                done = True
+        if not done:
+            raise rewrite.BindingError("items_to_mapping: result dict `offset_to_line` not found")
+        return node
+    return cached("lm.i2m", build)
+
+
+@harness("lm.items_to_mapping.linetable_step", props=["C10", "C02", "C01"], functions=["code_data._line_mapping.items_to_mapping"], configs=["3.10"],
+         assumes=["rule 6: the inner loop only writes offset_to_line[i] for the offset it visits; induction over the items is the meta-step"],
+         notes="3.10 format: a generic section (line delta or none, symbolic length) after a generic previous section: every code unit of [start, start+b) gets the running line + delta "
+               "(or no line) - CPython's co_lines() reading - and nothing outside it is written; unbounded values")
+def h_i2m_step(ctx, cfg):
+    node = i2m_ns()
+    writes = []
+
+    class G:
+        def __setitem__(self, k, v):
+            writes.append((k, v))
+    g = G()
+
+    def h_range(a, bb, step=1):
+        if not any(isinstance(x, SymInt) for x in (a, bb)):
+            return range(a, bb, step)
+        return _GenericRange(ctx, a, bb, step)
+    ns = rewrite.compile_defs(L, [copy.deepcopy(node)], {"G": g, "pvhook_range": h_range}, "items_to_mapping:linetable-step")
+    b0, l0 = ctx.input("previous_bytes", SymInt.fresh("b0")), ctx.input("previous_line_delta", SymInt.fresh("l0"))
+    b = ctx.input("section_bytes", SymInt.fresh("b"))
+    ctx.assume(z3.And(b0.z >= 0, b0.z % 2 == 0, b.z >= 0, b.z % 2 == 0), "pre: section lengths are whole code units")
+    noline = ctx.decide(z3.Bool("section_has_no_line"))
+    l = None if noline else ctx.input("line_delta", SymInt.fresh("l"))
+    ns["items_to_mapping"]([L.CollapsedLineTableItem(l0, b0), L.CollapsedLineTableItem(l, b)], 0, True)
+    for k, v in writes:
+        in_first = z3.And(Z(k) >= 0, Z(k) < b0.z)
+        in_second = z3.And(Z(k) >= b0.z, Z(k) < b0.z + b.z)
+        ctx.prove("write.lands_in_one_of_the_two_sections_on_a_unit_boundary", z3.And(z3.Or(in_first, in_second), Z(k) % 2 == 0))
+        if v is None:
+            ctx.prove("write.no_line_only_inside_the_no_line_section", z3.And(z3.BoolVal(noline), in_second))
+        else:
+            ctx.prove("write.line_is_the_running_line_of_its_section", z3.If(in_first, Z(v) == l0.z, z3.And(z3.BoolVal(not noline), Z(v) == l0.z + (0 if noline else l.z))))
+    ctx.prove("step.visits_each_section_through_one_generic_offset", z3.BoolVal(len(writes) <= 2))
+
+
+def m2i_step():
+    def build():
+        src = rewrite.Source.of(L)
+        fn = src.get_def("mapping_to_items")
+        branch = rewrite.find_stmt(fn, lambda n, t: isinstance(n, ast.If) and ast.unparse(n.test) == "is_linetable", "if is_linetable: [3.10 branch of mapping_to_items]")
+        loop = next((n for n in branch.body if isinstance(n, ast.For)), None)
+        if loop is None or ast.unparse(loop.target) != "(bytecode_offset, line_number)":
+            raise rewrite.BindingError("mapping_to_items: the 3.10 loop over mapping.offset_to_line.items() changed")
+        state = ["section_bytecode_offset", "section_line_number", "last_section_line_number", "section_line_number_diff"]
+        ret = ast.parse("return (%s)" % ", ".join(state)).body[0]
+        return rewrite.make_function("m2i_step", ["items", "bytecode_offset", "line_number"] + state, list(loop.body) + [ret], L.__name__, "mapping_to_items",
+                                     "body of the 3.10 loop on a generic mapping entry; loop-carried state becomes parameters and the return value")
+    return cached("lm.m2i_step", build)
+
+
+def _register_m2i():
+    for cur_lined, new_lined in itertools.product([False, True], repeat=2):
+        def h(ctx, cfg, cur_lined=cur_lined, new_lined=new_lined):
+            frag = m2i_step()
+            step = rewrite.compile_defs(L, [copy.deepcopy(frag)], {}, "mapping_to_items:step")["m2i_step"]
+            # reader state: R = running line of CPython's reader after the sections emitted so far (= line of the last lined section, 0 at the start)
+            R = ctx.input("reader_running_line", SymInt.fresh("R"))
+            sbo = ctx.input("section_start", SymInt.fresh("sbo"))
+            bo = ctx.input("entry_offset", SymInt.fresh("bo"))
+            ctx.assume(z3.And(sbo.z >= 0, bo.z > sbo.z), "pre: the entry lies after the start of the current section")
+            sln = ctx.input("section_line", SymInt.fresh("sln")) if cur_lined else None
+            ln = ctx.input("entry_line", SymInt.fresh("ln")) if new_lined else None
+            # loop invariant (see DESIGN 4/C10): the pending delta makes the reader arrive at the section's line
+            slnd = (sln - R) if cur_lined else None
+            lsln = sln if cur_lined else R
+            items = []
+            sbo2, sln2, lsln2, slnd2 = step(items, bo, ln, sbo, sln, lsln, slnd)
+            same_section = (cur_lined == new_lined) and (not cur_lined or not ctx.decide(ln.z != sln.z))
+            if same_section:
+                ctx.prove("same_line.emits_nothing_and_keeps_the_state", z3.BoolVal(items == [] and sbo2 is sbo and lsln2 is lsln and slnd2 is slnd))
+                return
+            ctx.prove("switch.emits_exactly_the_finished_section", z3.BoolVal(len(items) == 1))
+            it = items[0]
+            ctx.prove("switch.section_length_is_the_distance_to_its_start", Z(it.bytecode_offset) == bo.z - sbo.z)
+            if cur_lined:
+                ctx.prove("switch.reader_arrives_at_the_section's_line", z3.And(z3.BoolVal(it.line_offset is not None), R.z + Z(it.line_offset) == sln.z) if it.line_offset is not None else z3.BoolVal(False))
+                R2 = sln.z
+            else:
+                ctx.prove("switch.no_line_section_is_emitted_without_a_line", z3.BoolVal(it.line_offset is None))
+                R2 = R.z
+            ctx.prove("switch.new_section_starts_at_the_entry", z3.BoolVal(sbo2 is bo) if isinstance(sbo2, SymInt) and sbo2 is bo else Z(sbo2) == bo.z)
+            ctx.prove("switch.new_section_line_is_the_entry's", z3.BoolVal(sln2 is None) if ln is None else Z(sln2) == ln.z)
+            if new_lined:
+                ctx.prove("invariant.pending_delta_leads_the_reader_to_the_new_line", z3.And(z3.BoolVal(slnd2 is not None), R2 + Z(slnd2) == ln.z) if slnd2 is not None else z3.BoolVal(False))
+                ctx.prove("invariant.last_lined_section_is_the_new_one", Z(lsln2) == ln.z)
+            else:
+                ctx.prove("invariant.no_pending_delta_for_a_no_line_section", z3.BoolVal(slnd2 is None))
+                ctx.prove("invariant.last_lined_section_unchanged", Z(lsln2) == R2)
+        harness("lm.mapping_to_items.linetable_step[current=%s,entry=%s]" % ("lined" if cur_lined else "no-line", "lined" if new_lined else "no-line"), props=["C10", "C01", "C03"],
+                functions=["code_data._line_mapping.mapping_to_items"], configs=["3.10"],
+                assumes=["induction over the mapping entries is the meta-step; the mapping lists every code unit in ascending order (call-site contract of blocks_to_bytes)"],
+                notes="3.10 format: loop body on a generic entry under the invariant 'the pending delta leads CPython's reader from the last lined section to the current section's line': "
+                      "a section is emitted exactly when the line changes, with the distance to its start as length and a delta that makes the reader arrive at its line; unbounded values")(h)
+
+    def h_first(ctx, cfg):
+        frag = m2i_step()
+        step = rewrite.compile_defs(L, [copy.deepcopy(frag)], {}, "mapping_to_items:step")["m2i_step"]
+        for lined in (True, False):
+            ln = ctx.input("first_line", SymInt.fresh("ln0")) if lined else None
+            items = []
+            sbo, sln, lsln, slnd = step(items, 0, ln, None, None, 0, None)
+            ctx.prove("first_entry.emits_nothing", z3.BoolVal(items == []))
+            ctx.prove("first_entry.section_starts_at_0", z3.BoolVal(sbo == 0))
+            if lined:
+                ctx.prove("first_entry.invariant_holds_with_reader_line_0", z3.And(Z(slnd) == ln.z, Z(lsln) == ln.z, Z(sln) == ln.z))
+            else:
+                ctx.prove("first_entry.invariant_holds_with_reader_line_0", z3.BoolVal(slnd is None and sln is None and lsln == 0))
+    harness("lm.mapping_to_items.linetable_first_entry", props=["C10", "C01", "C03"], functions=["code_data._line_mapping.mapping_to_items"], configs=["3.10"],
+            notes="base case of the induction: after the first entry the invariant holds with the reader's running line 0")(h_first)
+
+
+_register_m2i()
